@@ -54,6 +54,11 @@ func (vc *VC) newBase(alloc Term) *HeapBase {
 }
 
 func (vc *VC) registerComp(name string, info compInfo) compInfo {
+	if vc.havocedUnregistered[name] {
+		// a callee's modifies clause named this component before the function under verification ever touched it: its
+		// first use would read the entry value although it may have changed (engine limitation, reported, never ignored)
+		panic(unsupported{"component " + name + " is modified by a callee before its first use in this function"})
+	}
 	if old, ok := vc.comps[name]; ok {
 		if old.Sort != info.Sort {
 			panic(fmt.Sprintf("component %s registered with sorts %s and %s", name, old.Sort, info.Sort))
@@ -104,8 +109,9 @@ func (vc *VC) goodHeapAxioms(name string, info compInfo, t Term, alloc Term) {
 		ax(Not(Select(t, Zero)))
 		return
 	}
-	if !alloc.IsZero() {
-		// convention: components are zero on references that are not allocated (memory of a new object is zeroed)
+	if !alloc.IsZero() && !strings.HasPrefix(name, "ghost:g.") {
+		// convention: components are zero on references that are not allocated (memory of a new object is zeroed);
+		// declared ghost components are indexed by arbitrary values (strings, ...), not by references
 		ax(Forall([]Term{r}, Implies(Not(Select(alloc, r)), Eq(Select(t, r), ZeroOf(ArrElem(info.Sort)))), []Term{Select(t, r)}))
 	}
 	switch {
